@@ -1,20 +1,31 @@
 #!/usr/bin/env python3
-"""tools/mut.py FILE 'OLD' 'NEW' PROP [PROP...] : apply a one-spot edit to /repo (must match exactly once),
-run the baseline and the quick checks of the given properties, then revert.  For validating the checks."""
-import sys, subprocess, os
-fn, old, new, props = sys.argv[1], sys.argv[2], sys.argv[3], sys.argv[4:]
-p = os.path.join('/repo', fn)
-s = open(p).read()
-old = old.encode().decode('unicode_escape'); new = new.encode().decode('unicode_escape')
-if s.count(old) != 1:
-    print('pattern occurs', s.count(old), 'times'); sys.exit(2)
-open(p, 'w').write(s.replace(old, new))
+"""tools/mut.py [--no-baseline] FILE 'OLD' 'NEW' PROP [PROP...] : apply a one-spot edit (must match exactly
+once) to a scratch worktree of /repo's HEAD, run the baseline there and the quick checks of the given
+properties against it (VERIF_REPO), then remove the worktree.  /repo is not touched.  For validating the checks."""
+import sys, subprocess, os, tempfile
+args = sys.argv[1:]
+nobase = '--no-baseline' in args
+args = [a for a in args if a != '--no-baseline']
+fn, old, new, props = args[0], args[1], args[2], args[3:]
+alt = tempfile.mkdtemp(prefix='mut-', dir='/tmp'); os.rmdir(alt)
+subprocess.run(['git', '-C', '/repo', 'worktree', 'add', '-q', '--detach', alt, 'HEAD'], check=True)
 try:
-    b = subprocess.run(['/verif/tools/baseline.sh'], capture_output=True, text=True)
-    print('baseline:', b.stdout.strip().splitlines()[0] if b.stdout else b.stderr[-300:])
+    p = os.path.join(alt, fn)
+    s = open(p).read()
+    old = old.encode().decode('unicode_escape'); new = new.encode().decode('unicode_escape')
+    if s.count(old) != 1:
+        print('pattern occurs', s.count(old), 'times'); sys.exit(2)
+    open(p, 'w').write(s.replace(old, new))
+    env = dict(os.environ, GOFLAGS='-mod=mod', GOPROXY='off', GOSUMDB='off', GOTOOLCHAIN='local')
+    b = subprocess.run(['go', 'build', './...'], cwd=alt, env=env, capture_output=True, text=True)
+    if b.returncode != 0:
+        print('does not build:', b.stderr[-400:]); sys.exit(2)
+    if not nobase:
+        b = subprocess.run(['/verif/tools/baseline.sh', alt], capture_output=True, text=True)
+        print('baseline:', b.stdout.strip().splitlines()[0] if b.stdout else b.stderr[-300:])
     for pr in props:
-        r = subprocess.run(['/verif/check', pr, '--tier', 'quick'], capture_output=True, text=True, cwd='/verif')
+        r = subprocess.run(['/verif/check', pr, '--tier', 'quick'], capture_output=True, text=True, cwd='/verif', env=dict(env, VERIF_REPO=alt))
         lines = [l for l in r.stdout.splitlines() if l.startswith('VIOLATION') or l.startswith('  ')][:4]
         print(f'{pr}: exit={r.returncode}', '| '.join(l.strip()[:160] for l in lines), r.stderr[-300:] if r.returncode == 2 else '')
 finally:
-    subprocess.run(['git', '-C', '/repo', 'checkout', '--', '.'])
+    subprocess.run(['git', '-C', '/repo', 'worktree', 'remove', '--force', alt])
